@@ -86,24 +86,24 @@ macro_rules! filter_harness { ($h:ident, $p:literal) => {
     fn $h() { check_filter($p); }
 } }
 
-//@ id=topicfilter.bounded.plain props=C01,C03,C04,C12,C16,C17,C20 kind=bounded(prefix""+<=4chars/8-symbol-alphabet) tier=quick
+//@ id=topicfilter.bounded.plain props=C16,C17 kind=bounded(prefix""+<=3chars/8-symbol-alphabet) tier=quick
 filter_harness!(k_filter_plain, "");
-//@ id=topicfilter.bounded.share props=C01,C03,C04,C12,C16,C17,C20 kind=bounded(prefix"$share/"+<=4chars) tier=quick
+//@ id=topicfilter.bounded.share props=C16,C17 kind=bounded(prefix"$share/"+<=3chars) tier=quick
 filter_harness!(k_filter_share, "$share/");
-//@ id=topicfilter.bounded.share-g props=C01,C03,C04,C12,C16,C17,C20 kind=bounded(prefix"$share/g"+<=4chars) tier=quick
+//@ id=topicfilter.bounded.share-g props=C16,C17 kind=bounded(prefix"$share/g"+<=3chars) tier=quick
 filter_harness!(k_filter_share_g, "$share/g");
-//@ id=topicfilter.bounded.share-g-slash props=C01,C03,C04,C12,C16,C17,C20 kind=bounded(prefix"$share/é/"+<=4chars) tier=quick
+//@ id=topicfilter.bounded.share-g-slash props=C16,C17 kind=bounded(prefix"$share/é/"+<=3chars) tier=quick
 filter_harness!(k_filter_share_g_slash, "$share/é/");
-//@ id=topicfilter.bounded.share6 props=C01,C03,C04,C12,C16,C17,C20 kind=bounded(prefix"$share"+<=4chars) tier=quick
+//@ id=topicfilter.bounded.share6 props=C16,C17 kind=bounded(prefix"$share"+<=3chars) tier=quick
 filter_harness!(k_filter_share6, "$share");
-//@ id=topicfilter.bounded.shar props=C01,C03,C04,C12,C16,C17,C20 kind=bounded(prefix"$shar"+<=4chars) tier=quick
+//@ id=topicfilter.bounded.shar props=C16,C17 kind=bounded(prefix"$shar"+<=3chars) tier=quick
 filter_harness!(k_filter_shar, "$shar");
-//@ id=topicfilter.bounded.sharX props=C01,C03,C04,C12,C16,C17,C20 kind=bounded(prefix"$sharE/g/"+<=4chars) tier=quick
+//@ id=topicfilter.bounded.sharX props=C16,C17 kind=bounded(prefix"$sharE/g/"+<=3chars) tier=quick
 filter_harness!(k_filter_share_upper, "$sharE/g/");
-//@ id=topicfilter.bounded.level props=C01,C03,C04,C12,C16,C17,C20 kind=bounded(prefix"a/"+<=4chars) tier=quick
+//@ id=topicfilter.bounded.level props=C16,C17 kind=bounded(prefix"a/"+<=3chars) tier=quick
 filter_harness!(k_filter_level, "a/");
 
-//@ id=topicname.bounded props=C01,C03,C04,C12,C18,C20 kind=bounded(<=4chars/8-symbol-alphabet) tier=quick
+//@ id=topicname.bounded props=C18 kind=bounded(<=3chars/8-symbol-alphabet) tier=quick
 #[kani::proof]
 #[kani::unwind(26)]
 fn k_topic_name() {
